@@ -166,6 +166,20 @@ func (fv *FnV) callUser(st *State, call *ast.CallExpr, key string, o *types.Func
 	if st.dead {
 		return fv.havocResults(st, sig)
 	}
+	if len(fv.frames) == 1 && !fv.spec {
+		// remembered for call-anchored asserts (arg0, arg1, ...): declared parameters only
+		vals := make([]Val, 0, len(args))
+		for i, a := range args {
+			if i == 0 && osig.Recv() != nil {
+				continue
+			}
+			vals = append(vals, a.val)
+		}
+		if fv.callArgs == nil {
+			fv.callArgs = map[*ast.CallExpr][]Val{}
+		}
+		fv.callArgs[call] = vals
+	}
 
 	if fv.fc != nil && fv.fc.Opaque[key] && len(fv.frames) == 1 && !fv.spec {
 		fv.tag("callee-opaque-here:" + key)
